@@ -873,6 +873,8 @@ STRUCT_QUICK_FEWER = {
     "lbadapt": [((8, 3), None), ((8, 3), ("right", 1)), ((8, 5), None), ((8, 5), ("right", 1))],
     "nscroll": [((8, 3), None), ((8, 3), ("right", 1)), ((8, 5), None), ((8, 5), ("right", 1))],
     "lbox": [((8, 3), None), ((8, 3), ("left", 2)), ((7, 2), None)],
+    "nest": [((8, 1), None), ((8, 3), None), ((8, 3), ("left", 2)), ((8, 5), ("right", 1)), ((7, 2), None), ((7, 2), ("right", 1))],
+    "sel": [((8, 1), ("right", 1)), ((8, 3), None), ((8, 3), ("right", 1)), ((8, 5), None), ((7, 2), None), ((7, 2), ("left", 2))],
 }
 
 
@@ -1043,7 +1045,7 @@ def run(tier="quick", seed=0):
         f"all length-3 histories over {len(ALPHA3['quick' if quick else 'thorough'])} core events on {len(c3)} configs; "
         f"{'' if quick else '100 seeded random histories of length 4-6 per config; '}"
         f"{len(stcfgs)} structured-content configs (multi-shard canvases with views spanning shard boundaries and per-column display attributes: {', '.join(STRUCTS)}; "
-        f"views {STRUCT_SIZES['quick' if quick else 'thorough']}; no bar / right 1 / left 2{' (lbadapt, nscroll: 4 of these combinations, lbox: 3)' if quick else ''}) x [set_scrollpos(k) for every k in -total-1..total+1 warm and cold, every position 0..total followed by each of "
+        f"views {STRUCT_SIZES['quick' if quick else 'thorough']}; no bar / right 1 / left 2{' (nest, sel: 6 of these combinations, lbadapt, nscroll: 4, lbox: 3)' if quick else ''}) x [set_scrollpos(k) for every k in -total-1..total+1 warm and cold, every position 0..total followed by each of "
         f"{len(STRUCT_FOLLOW)} events (keys, wheel, resizes, content changes) and by a chain of 5 resizes, full walks by down/up, wheel, page keys, end+up, walks interrupted by resizes"
         f"{'' if quick else ', 60 random histories of length 3-6'}]; "
         f"{len(lcfgs)} ListBox-under-ScrollBar configs (<= {8 if quick else 12} items of 1-2 rows) x histories of length <= 2 over {len(LB_EVENTS)} events"
